@@ -396,6 +396,50 @@ def user_kind_with_a_queue(M, rec, rng, reps):
                     break
 
 
+def restep_on_own_states(M, rec, rng, g, n_cases):
+    """The clamped variant of a model over the same variables: a network is stepped plainly, then stepped again from the
+    mappings its elements hold (`{link: link.states}` - the very dict objects - merged with the actions / disturbances
+    where an element has some), now with initial clamps requested: the result is the plain step applied to max(0, .)."""
+    NE, CE = drive.engines(M)
+    for it in range(n_cases):
+        desc = g.all_kinds_network() if it % 4 == 0 else g.network()[1]
+        pars = g.pars()
+        kw = drive.step_pars(pars)
+        _, v0 = g.values(desc, allow_inf=False)
+        vals = negatives(v0, rng, 0.4)
+        opts = {o_: True for o_ in ("positive_init_density", "positive_init_speed", "positive_init_queue") if rng.random() < 0.6}
+        if not opts:
+            opts = {"positive_init_density": True, "positive_init_speed": True}
+        try:
+            ops = D.random_ops(desc, rng)
+            a = D.build(M, desc, ops)
+            a.net.step(init_conditions=drive.np_init(a, vals, "vec1"), engine=NE(), **kw)
+            ic = {}
+            for el in list(a.net.elements):
+                if el.states and not el.actions and not el.disturbances:
+                    ic[el] = el.states  # the element's own mapping, as it stands
+                    rec.count("elements_re_initialised_on_their_own_state_mapping")
+                else:
+                    merged = {}
+                    for grp in (el.states, el.actions, el.disturbances):
+                        if grp:
+                            merged.update(grp)
+                    if merged:
+                        ic[el] = merged
+            a.net.step(init_conditions=ic, engine=NE(), **opts, **kw)
+            got = drive.read_next(a)
+            b = D.build(M, desc, ops)
+            b.net.step(init_conditions=drive.np_init(b, clamp(vals, opts, "init"), "vec1"), engine=NE(), **kw)
+            exp = drive.read_next(b)
+        except Exception as e:
+            rec.count("restep_on_own_states_failed")
+            rec.seen("restep_on_own_states_failed", repr(e)[:120])
+            continue
+        rec.count("resteps_on_own_states")
+        compare(rec, "numpy (re-stepped from the elements' own mappings)", desc, opts, got, exp,
+                {"desc": desc, "pars": pars, "vals": vals, "opts": opts, "engine": "numpy"}, exact=False)
+
+
 def run(M, rec, tier, seed, k, n):
     np.seterr(all="ignore")
     rng = random.Random(seed * 1000 + k + 1100)
@@ -415,6 +459,7 @@ def run(M, rec, tier, seed, k, n):
     reference_pairs(M, rec, rng, g, 14 if tier == "quick" else 90)
     history_pairs(M, rec, rng, g, 16 if tier == "quick" else 120)
     user_kind_with_a_queue(M, rec, rng, 40 if tier == "quick" else 400)
+    restep_on_own_states(M, rec, rng, g, 30 if tier == "quick" else 300)
 
 
 def finish(M, rec, write=True):
